@@ -3,7 +3,7 @@
 # output dir of every failing run under /tmp/stress_fail/<prop>_<round>
 cd "$(dirname "$0")/.."
 rounds=${1:-2}; par=${2:-6}; shift 2
-props=${@:-C01 C02 C03 C04 C05 C06 C07 C08 C09 C10 C11 C12 C13 C14 C15 C16 C18 C19 C20}
+props=${@:-C01 C02 C03 C04 C05 C06 C07 C08 C09 C10 C11 C12 C13 C14 C15 C16 C17 C18 C19 C20}
 mkdir -p /tmp/stress_fail
 for r in $(seq 1 $rounds); do
   echo "== round $r"
